@@ -8,6 +8,7 @@ import ChythonModel.Proofs.C06Marks
 import ChythonModel.Proofs.C06Count
 import ChythonModel.Proofs.C06RingVec
 import ChythonModel.Proofs.C06SkinCycles
+import ChythonModel.Proofs.C06Arom
 /-!
 # C06 — ring perception returns a minimum cycle basis that ring marks agree with
 
@@ -251,5 +252,26 @@ example :
     ringMarks m [[1, 2, 3]] =
       [⟨1, true, [3], [(2, true), (3, true), (4, false)]⟩, ⟨2, true, [3], [(1, true), (3, true)]⟩,
        ⟨3, true, [3], [(2, true), (1, true)]⟩, ⟨4, false, [], [(1, false)]⟩] := by decide
+
+/-! ## `aromatic_rings` -/
+
+/-- `aromatic_rings` is the sub-list (same order) of the reported rings all of whose looked-up bonds
+(`ring[0]–ring[-1]`, then consecutive atoms) exist and have order 4; and it does not raise when the reported rings
+are non-empty and bonded -/
+theorem aromatic_rings_spec (m : ChythonModel.Model.Mol) (sssr : List Ring) :
+    (∀ out, aromaticRings m sssr = some out →
+      out.Sublist sssr ∧ ∀ r, r ∈ out ↔ r ∈ sssr ∧ r ≠ [] ∧ AllOrder4 m r) ∧
+    ((∀ r ∈ sssr, r ≠ [] ∧ ∀ ab ∈ ringBondPairs r, (m.bond? ab.1 ab.2).isSome = true) →
+      (aromaticRings m sssr).isSome = true) :=
+  ⟨fun _ h => aromaticRings_spec h, aromaticRings_isSome⟩
+
+/-- non-vacuous: a three-ring with aromatic bonds fused to a three-ring with one single bond; a ring with a missing
+bond makes the Python raise (`none`) -/
+example :
+    let a : ChythonModel.Model.Bond := ⟨4, none⟩
+    let s : ChythonModel.Model.Bond := ⟨1, none⟩
+    let m : ChythonModel.Model.Mol := ⟨[(1, {z := 6}), (2, {z := 6}), (3, {z := 6}), (4, {z := 6})],
+      [(1, [(2, a), (3, a)]), (2, [(1, a), (3, a), (4, s)]), (3, [(1, a), (2, a), (4, a)]), (4, [(2, s), (3, a)])]⟩
+    aromaticRings m [[1, 2, 3], [2, 3, 4]] = some [[1, 2, 3]] ∧ aromaticRings m [[1, 2, 4]] = none := by decide
 
 end ChythonModel.Props.C06
